@@ -175,9 +175,11 @@ def main():
     cal = scancal.run()
     scansim.servers().stop_all()         # no server may be alive across the fork of the worker pool
     if cal['problems']:
+        # Either the stub or the code under test changed what these inputs produce.  That cannot
+        # make a variant differ from its own baseline, so differences found below are still
+        # believed; but "held" is not reported on top of a failed calibration (exit 2 at the end).
         for p in cal['problems'][:5]:
-            print('HARNESS-FAILURE stub calibration: %s' % p[:1500])
-        return core.EXIT_HARNESS
+            print('NOTE stub calibration failed: %s' % p[:600])
 
     try:
         results = core.pmap(scansim.exec_job, [(root, i, thorough, PROP) for i in range(njobs)], jobs=workers,
@@ -244,6 +246,9 @@ def main():
         print(json.dumps({'variant': mm['variant'], 'diff': mm['diff']}, default=str)[:1800])
         print('VIOLATION property=%s replay=%s' % (PROP, path))
 
+    if cal['problems'] and exit_code == core.EXIT_HELD:
+        print('HARNESS-FAILURE stub calibration failed and no difference between variants was found: nothing can be concluded')
+        return core.EXIT_HARNESS
     wall = time.monotonic() - t0
     cov = coverage(results, cal, wall, workers, known_hits, fixed, reported, root, thorough)
     core.write_evidence(PROP, tier, root, cov, ASSUMPTIONS, wall, len(reported))
